@@ -7,6 +7,7 @@ import (
 	"go/parser"
 	"go/token"
 	"go/types"
+	"sort"
 	"strings"
 )
 
@@ -26,6 +27,8 @@ func init() {
 	ruleText["R03.3"] = "the integer width table has an entry for every integer kind equal to 8*Sizeof(kind) of the analysed configuration"
 	ruleText["R03.4"] = "in the function deciding whether a constant is representable, the case of signed kinds bounds the value with width-1 magnitude bits and cannot reach the full-width comparison used for unsigned kinds"
 	ruleText["R03.8"] = "in the cases of the representability function that round through constant.Float32Val/Float64Val (float and complex kinds), every return that is not the constant false derives its value from math.IsInf"
+	ruleText["R03.9"] = "a comparison of reflect.Type.Bits() with a constant, under a guard isComplex/isFloat/isInt/isUint on the same type, uses a width kinds of that class can have (64/128, 32/64, 8..64)"
+	ruleText["R03.10"] = "every boolean predicate whose truth leads to the 'division by zero' error calls constant.Sign and converts no reflect.Value / constant to a machine number"
 	ruleText["R03.7"] = "no assignment in package interp has the form *p = v with p of type *itype: a node's type is changed by replacing the pointer, never by overwriting the shared type object"
 	ruleText["R03.6"] = "in the AST builder, the value of an INT, FLOAT, IMAG or STRING literal is constant.MakeFromLiteral(lit.Value, lit.Kind, 0) on every path (go/constant's parser defines the exact value of a literal)"
 	ruleText["R03.5"] = "every function assigning scope.iota does so in an if/else that resets it to 0 when the spec is the last child of its declaration and increments it otherwise; all such sites use the same condition"
@@ -46,6 +49,8 @@ func runC03(c *Config, r *Report) {
 	c03R3(ic, r)
 	c03R4(ic, r)
 	c03R8(ic, r)
+	c03R9(ic, r)
+	c03R10(ic, r)
 	c03R5(ic, r)
 	c03R6(ic, r)
 	c03R7(ic, r)
@@ -1008,8 +1013,97 @@ func c03R8(ic *IC, r *Report) {
 		}
 		return true
 	})
-	if n < 2 {
-		r.Errorf("R03.8: %d cases rounding through Float32Val/Float64Val found in %s; the float and the complex case are expected", n, name)
+	// a case may instead hand both parts of a complex constant to the function itself (the
+	// float case then decides): it must do so for the real and for the imaginary part
+	delegating := 0
+	ast.Inspect(fi.Decl.Body, func(m ast.Node) bool {
+		cc, ok := m.(*ast.CaseClause)
+		if !ok || len(cc.List) != 1 {
+			return true
+		}
+		body := &ast.BlockStmt{List: cc.Body}
+		real, imag := false, false
+		for _, c := range allCalls(body) {
+			if f, ok := calleeOf(info, c).(*types.Func); ok && f == fi.Obj && len(c.Args) > 0 {
+				if len(callsIn(info, c.Args[0], true, "go/constant.Real")) > 0 {
+					real = true
+				}
+				if len(callsIn(info, c.Args[0], true, "go/constant.Imag")) > 0 {
+					imag = true
+				}
+			}
+		}
+		if real || imag {
+			delegating++
+			r.Check(real && imag, "R03.8", name+"/"+types.ExprString(cc.List[0])+"/both-parts-delegated", ic.pos(cc.Pos()), "the real and the imaginary part are both decided by the float case",
+				"the "+types.ExprString(cc.List[0])+" case of "+name+" hands only one part of the complex constant to the float case: the other part is never range-checked")
+		}
+		return true
+	})
+	if n+delegating < 2 {
+		r.Errorf("R03.8: %d cases rounding through Float32Val/Float64Val (and %d delegating to them) found in %s; the float and the complex case are expected", n, delegating, name)
+	}
+}
+
+// c03R9: reflect.Type.Bits under a kind-class guard is compared with a width that kinds of the
+// class can have (complex kinds have 64 or 128 bits, floats 32 or 64, integers 8 to 64): a
+// comparison with another constant is never true, so the branch it selects (the narrow type's
+// range check, typically) is dead.
+func c03R9(ic *IC, r *Report) {
+	info := ic.Info
+	widths := map[string]map[string]bool{
+		"isComplex": {"64": true, "128": true},
+		"isFloat":   {"32": true, "64": true},
+		"isInt":     {"8": true, "16": true, "32": true, "64": true},
+		"isUint":    {"8": true, "16": true, "32": true, "64": true},
+	}
+	n, nBad := 0, 0
+	for _, name := range sortedKeys(ic.F) {
+		fi := ic.F[name]
+		if fi.Decl.Body == nil {
+			continue
+		}
+		ast.Inspect(fi.Decl.Body, func(m ast.Node) bool {
+			be, ok := m.(*ast.BinaryExpr)
+			if !ok || (be.Op != token.EQL && be.Op != token.NEQ) {
+				return true
+			}
+			c, ok := unparen(be.X).(*ast.CallExpr)
+			if !ok || !isCallTo(info, c, "reflect.Type.Bits") {
+				return true
+			}
+			tv, ok := info.Types[be.Y]
+			if !ok || tv.Value == nil {
+				return true
+			}
+			recv := types.ExprString(unparen(c.Fun).(*ast.SelectorExpr).X)
+			// the class guard on the same type expression
+			for _, g := range pathGuards(fi.Decl.Body, be) {
+				if !g.want {
+					continue
+				}
+				for _, conj := range splitExpr(g.cond, token.LAND) {
+					pc, ok := conj.(*ast.CallExpr)
+					if !ok || len(pc.Args) != 1 || types.ExprString(pc.Args[0]) != recv {
+						continue
+					}
+					pf, _ := calleeOf(info, pc).(*types.Func)
+					if pf == nil || widths[pf.Name()] == nil {
+						continue
+					}
+					n++
+					if !widths[pf.Name()][tv.Value.ExactString()] {
+						nBad++
+						r.Fail("R03.9", fmt.Sprintf("%s/bits-of-a-%s-kind:%s", name, strings.TrimPrefix(pf.Name(), "is"), tv.Value.ExactString()), ic.pos(be.Pos()),
+							"under "+types.ExprString(pc)+", "+types.ExprString(be)+" can never hold (kinds of that class have "+strings.Join(sortedKeys(widths[pf.Name()]), ", ")+" bits): the branch it selects is dead, e.g. complex64 constants are range-checked as float64 pairs and 1e39 is accepted")
+					}
+				}
+			}
+			return true
+		})
+	}
+	if nBad == 0 {
+		r.Pass("R03.9", "package/bits-comparisons-feasible", "", fmt.Sprintf("%d comparisons of reflect.Type.Bits under a kind-class guard, all with a width the class can have", n))
 	}
 }
 
@@ -1028,4 +1122,79 @@ func childrenOf(n ast.Node) []ast.Node {
 		return false
 	})
 	return out
+}
+
+// c03R10: whether a constant divisor is zero is decided on the exact constant (go/constant's
+// Sign), never on a machine number: a divisor smaller than the smallest float64 is not zero
+// (1e-390 / 1e-400 is the valid constant 1e10). The predicates whose truth makes the type
+// checker report "division by zero" call constant.Sign and no in-package conversion of a
+// reflect.Value to a machine number.
+func c03R10(ic *IC, r *Report) {
+	info := ic.Info
+	preds := map[*types.Func]token.Pos{}
+	for _, name := range sortedKeys(ic.F) {
+		fi := ic.F[name]
+		if fi.Decl.Body == nil {
+			continue
+		}
+		ast.Inspect(fi.Decl.Body, func(m ast.Node) bool {
+			ifs, ok := m.(*ast.IfStmt)
+			if !ok {
+				return true
+			}
+			mentions := false
+			ast.Inspect(ifs.Body, func(k ast.Node) bool {
+				if bl, ok := k.(*ast.BasicLit); ok && bl.Kind == token.STRING && strings.Contains(bl.Value, "division by zero") {
+					mentions = true
+				}
+				return true
+			})
+			if !mentions {
+				return true
+			}
+			for _, c := range allCalls(ifs.Cond) {
+				if f, ok := calleeOf(info, c).(*types.Func); ok && f.Pkg() == ic.Pk.Types {
+					if sg := f.Type().(*types.Signature); sg.Results().Len() == 1 && types.Identical(sg.Results().At(0).Type(), types.Typ[types.Bool]) {
+						preds[f] = c.Pos()
+					}
+				}
+			}
+			return true
+		})
+	}
+	if len(preds) == 0 {
+		r.Errorf("R03.10: no predicate guarding a division-by-zero error found")
+		return
+	}
+	var fs []*types.Func
+	for f := range preds {
+		fs = append(fs, f)
+	}
+	sort.Slice(fs, func(i, j int) bool { return fs[i].Pos() < fs[j].Pos() })
+	for _, f := range fs {
+		fi := ic.G.Funcs[f]
+		if fi == nil || fi.Decl.Body == nil {
+			continue
+		}
+		exact := len(callsIn(info, fi.Decl.Body, true, "go/constant.Sign")) > 0
+		var machine []string
+		for _, c := range allCalls(fi.Decl.Body) {
+			g, ok := calleeOf(info, c).(*types.Func)
+			if !ok {
+				continue
+			}
+			sg := g.Type().(*types.Signature)
+			if g.Pkg() == ic.Pk.Types && sg.Params().Len() == 1 && types.TypeString(sg.Params().At(0).Type(), nil) == "reflect.Value" && sg.Results().Len() == 1 {
+				if b, ok := sg.Results().At(0).Type().Underlying().(*types.Basic); ok && b.Info()&types.IsNumeric != 0 {
+					machine = append(machine, g.Name()+" at "+ic.pos(c.Pos()))
+				}
+			}
+			switch objKey(g) {
+			case "reflect.Value.Float", "reflect.Value.Complex", "reflect.Value.Int", "reflect.Value.Uint", "go/constant.Float64Val", "go/constant.Float32Val":
+				machine = append(machine, shortKey(objKey(g))+" at "+ic.pos(c.Pos()))
+			}
+		}
+		r.Check(exact && len(machine) == 0, "R03.10", funcName(fi.Decl)+"/zero-divisor-decided-exactly", ic.pos(fi.Decl.Pos()), "the zero test uses constant.Sign on the exact value",
+			funcName(fi.Decl)+", whose truth makes the type checker report a division by zero, "+map[bool]string{true: "converts the constant to a machine number (" + strings.Join(machine, ", ") + ")", false: "does not use constant.Sign"}[len(machine) > 0]+": a non-zero divisor below the smallest float64 underflows to 0 and the valid constant expression 1e-390 / 1e-400 is rejected")
+	}
 }
